@@ -72,3 +72,13 @@ Theorem C02_merge_keeps_handles : forall T b L data n nx n' nx',
   exists m', node_at p n' = Some m' /\ node_id m' = node_id m.
 Proof. exact upd_keeps_handles. Qed.
 Print Assumptions C02_merge_keeps_handles.
+
+(* SOURCE STRUCTURE (Gen/Structure.v, regenerated from /repo's source on every run): on every execution path of every
+   public reader (every public method that is not a mutator, attribute access of AttrDict included), the in-memory data
+   is not looked at before a load on that path (entering a load-and-save section counts as a load) *)
+From SC Require Import Model.Struct Gen.Structure Proofs.StructProofs.
+Theorem C02_readers_load_before_looking :
+  forall m tr, In m Structure.methods -> is_mutator (sm_name m) = false -> lpaths false (sm_body m) tr ->
+  loaded_before_data false tr.
+Proof. exact (reader_paths_loaded_marked Structure.methods gen_structure_ok). Qed.
+Print Assumptions C02_readers_load_before_looking.
